@@ -1,6 +1,6 @@
 import PolytuneModel.Server.Net
 /-! C13 for three parties (slow: minutes of kernel evaluation; thorough tier). -/
 namespace PolytuneModel.Server
-theorem C13_n3_leader1 : (report Cfg.pinned ⟨3, 1, [true, true, false], [false, false, false]⟩ 80).2.2 = (0, 0) := by decide +kernel
-theorem C13_n3_leader0_consts : (report Cfg.pinned ⟨3, 0, [true, true, true], [true, false, true]⟩ 80).2.2 = (0, 0) := by decide +kernel
+theorem C13_n3_leader1 : (report Cfg.current ⟨3, 1, [true, true, false], [false, false, false]⟩ 80).2.2 = (0, 0) := by decide +kernel
+theorem C13_n3_leader0_consts : (report Cfg.current ⟨3, 0, [true, true, true], [true, false, true]⟩ 80).2.2 = (0, 0) := by decide +kernel
 end PolytuneModel.Server
